@@ -168,8 +168,17 @@ extern "C" int self_args()
     for(unsigned i = s; i < e; ++i) { byte x = vf_u8(); a.buffer[i] = x; ma.append(&x, 1); }
     *a.bufferEnd = 0;
     Model t = ma;
-    unsigned op = vf_pick(5);
-    if(op == 0) { a.append(a); ma.append(t.v, t.n); }
+    unsigned op = vf_pick(8);
+    if(op >= 5)
+    {
+      // a Buffer attached to a range of a's own bytes (a non-owning view) as the argument
+      unsigned from = vf_pick(t.n + 1), len = vf_pick(t.n - from + 1);
+      Buffer view; view.attach((byte*)a + from, len);
+      if(op == 5) { a.append(view); ma.append(t.v + from, len); }
+      else if(op == 6) { a.prepend(view); ma.prepend(t.v + from, len); }
+      else { a = view; ma.n = 0; ma.append(t.v + from, len); }
+    }
+    else if(op == 0) { a.append(a); ma.append(t.v, t.n); }
     else if(op == 1) { a.prepend(a); ma.prepend(t.v, t.n); }
     else if(op == 2) { a = a; }
     else
@@ -178,7 +187,8 @@ extern "C" int self_args()
       unsigned from = vf_pick(t.n + 1), len = vf_pick(t.n - from + 1);
       const byte* p = (const byte*)a + from;
       if(op == 3) { a.append(p, len); ma.append(t.v + from, len); }
-      else { a.prepend(p, len); ma.prepend(t.v + from, len); }
+      else if(vf_pick(2)) { a.prepend(p, len); ma.prepend(t.v + from, len); }
+      else { a.assign(p, len); ma.n = 0; ma.append(t.v + from, len); }
     }
     check(a, ma, "a");
   }
